@@ -60,7 +60,7 @@ def build(v):
 
     tb = v["tables"]
     if isinstance(tb, SymTables):
-        t = object.__new__(Taus)
+        t = harness.partial(Taus)
         t.pexit_grid = GridStub("pexit", AXES)
         v["__taus__"] = t
     else:
@@ -163,7 +163,12 @@ def bounded_native(ck):
         # all nodes, first call on a fresh object
         E, B = np.meshgrid(nt.ax0, nt.ax1, indexing="ij")
         t = fresh_taus(ver)
-        got = t.tau_exit_prob(B.ravel().copy(), E.ravel().copy())
+        try:
+            got = t.tau_exit_prob(B.ravel().copy(), E.ravel().copy())
+        except Exception as ex:  # every node of the table is inside the closed table range: raising here is a failure of the clause, not of the harness
+            fails.append({"obligation": "bounded.nodes", "clause": "every node of the table (closed ranges, last row and column included) is accepted and reproduced",
+                          "input": {"version": ver, "log_e_nu_range": [float(nt.ax0[0]), float(nt.ax0[-1])], "beta_range": [float(nt.ax1[0]), float(nt.ax1[-1])]}, "observed": "raised %r" % ex})
+            continue
         n += got.size
         if bad(got, want(B.ravel(), E.ravel())):
             j = int(np.argmax(np.abs(np.log(got / want(B.ravel(), E.ravel())))))
